@@ -33,8 +33,8 @@ EDGES = {
     'pri': [(0, 1), (0, 2), (0, 3), (1, 2), (1, 4), (2, 5), (3, 4), (3, 5), (4, 5)],
     'hex': [(0, 1), (0, 3), (0, 4), (1, 2), (1, 5), (2, 3), (2, 6), (3, 7), (4, 5), (4, 7), (5, 6), (6, 7)],
 }
-VALUE_OPS = ('l2grad', 'l2hess', 'signed_hess', 'kx_grad', 'kx_hess', 'roundoff')
-PER = {'l2grad': 3, 'kx_grad': 3, 'l2hess': 6, 'signed_hess': 6, 'kx_hess': 6, 'roundoff': 6}
+VALUE_OPS = ('l2grad', 'l2hess', 'signed_hess', 'kx_grad', 'kx_hess', 'roundoff', 'extrap')
+PER = {'l2grad': 3, 'kx_grad': 3, 'l2hess': 6, 'signed_hess': 6, 'kx_hess': 6, 'roundoff': 6, 'extrap': 6}
 
 
 # ---------------------------------------------------------------------------------------------- meshes
@@ -265,6 +265,18 @@ def sym_field(rng, pts):
     return out
 
 
+def thick_mask(rng, twod, pts):
+    """replace mask of `extrap`: a half space (several layers deep: several passes), now and then everything"""
+    d = [rng.uniform(-1, 1) for _ in range(3)]
+    if twod:
+        d[2] = 0.0
+    vals = sorted(dot(d, p) for p in pts)
+    cut = vals[int(len(vals) * rng.uniform(0.3, 0.7))]
+    if rng.random() < 0.08:
+        return 'm' + '1' * len(pts)
+    return 'm' + ''.join('1' if dot(d, p) <= cut else '0' for p in pts)
+
+
 def gen(rng, tier, np):
     ops = []
     n3 = 3 if tier == 'quick' else 8
@@ -272,11 +284,12 @@ def gen(rng, tier, np):
     # (mesh kind, [(op, field)])
     for _ in range(n3):
         plan.append(('tet', [('l2grad', 'lin'), ('l2hess', 'quad'), ('signed_hess', 'quad'), ('kx_grad', 'quad'),
-                             ('kx_hess', 'tanh'), ('cloud1', 'rnd'), ('roundoff', None)]))
+                             ('kx_hess', 'tanh'), ('cloud1', 'rnd'), ('roundoff', None), ('extrap', None)]))
         plan.append(('mixed', [('l2grad', 'tanh'), ('l2hess', 'lin'), ('signed_hess', 'tanh'), ('l2grad', 'rnd'),
                                ('roundoff', None)]))
         plan.append(('tri', [('l2grad', 'lin'), ('l2hess', 'quad'), ('signed_hess', 'quad'), ('kx_grad', 'lin'),
-                             ('kx_hess', 'quad'), ('kx_grad', 'tanh'), ('cloud1', 'rnd'), ('roundoff', None)]))
+                             ('kx_hess', 'quad'), ('kx_grad', 'tanh'), ('cloud1', 'rnd'), ('roundoff', None),
+                             ('extrap', None)]))
         plan.append(('triqua', [('l2grad', 'quad'), ('l2hess', 'tanh'), ('signed_hess', 'lin'), ('roundoff', None)]))
     hows = ['slab', 'random', 'single', 'emptyrank', 'slab', 'single']
     ci = 0
@@ -285,9 +298,11 @@ def gen(rng, tier, np):
         interior = interior_of(twod, len(pts), bnd)
         nn = len(pts)
         rng.shuffle(todo)
-        for op, which in todo[:4 if tier == 'quick' else len(todo)]:
+        for op, which in todo:
             if op == 'roundoff':
                 tag, fld = 'sym', sym_field(rng, pts)
+            elif op == 'extrap':
+                tag, fld = thick_mask(rng, twod, pts), [rng.uniform(-1, 1) for _ in range(6 * nn)]
             else:
                 tag, fld = make_field(rng, twod, pts, which)
             ref = distribute(rng, np, twod, nn, cells, bnd, [0] * nn, False)
@@ -314,7 +329,7 @@ def gen(rng, tier, np):
 def parse_line(o):
     w = o.split()
     op, np, twod, nn, tag = w[0], int(w[1]), int(w[2]), int(w[3]), w[4]
-    ns = 6 * nn if op == 'roundoff' else nn
+    ns = 6 * nn if op in ('roundoff', 'extrap') else nn
     k = 5
     xyz = fl(w[k:k + 3 * nn])
     k += 3 * nn
@@ -457,6 +472,24 @@ def oracle(ops, impl):
             refs[d['key']] = (own, vals)
         hmin_of = min_edges(pts, gcells)
         hmin = min(hmin_of.values()) if hmin_of else 1.0
+        if op == 'extrap':
+            inp = [d['fld'][6 * g:6 * g + 6] for g in range(nn)]
+            mask = d['tag'][1:]
+            donors = [g for g in range(nn) if mask[g] == '0']
+            for g, v in sorted(vals.items()):
+                if mask[g] == '0':
+                    if [hx(x) for x in v] != [hx(x) for x in inp[g]]:
+                        bad.append((i, 'extrap: vertex %d is not to be replaced but changed: %r -> %r' % (g, inp[g], v)))
+                        break
+                elif v != inp[g] and donors:
+                    for c in range(6):
+                        lo = min(inp[q][c] for q in donors)
+                        hi = max(inp[q][c] for q in donors)
+                        if not (lo - 1e-12 <= v[c] <= hi + 1e-12):
+                            bad.append((i, 'extrap: vertex %d component %d = %r is not an average of values that were not '
+                                           'to be replaced (range %r..%r)' % (g, c, v[c], lo, hi)))
+                            break
+            continue
         if op == 'roundoff':
             inp = [d['fld'][6 * g:6 * g + 6] for g in range(nn)]
             for g, v in sorted(vals.items()):
